@@ -2,6 +2,7 @@ package rules
 
 import (
 	"fmt"
+	"go/constant"
 	"go/token"
 	"go/types"
 	"strings"
@@ -18,8 +19,8 @@ func init() {
 		Pkgs:      []string{"timeout"},
 		Run:       runC12,
 		Technique: "static analysis: abstract interpretation of the heap.Interface methods (symbolic slots and index fields), guard dominance, origin analysis of the invoked callback, must-lockset dataflow and who-may-write census on go/ssa of timeout/timeout.go",
-		Explanation: "R1: after Swap(i,j) the element in slot i has index i and the one in slot j has index j; Push gives the pushed element the length before the append (also when written as the length after it minus one: length arithmetic over the one append); Pop marks the returned element with a negative index (abstract interpretation with symbolic slots; the queue is the heap object itself or a slice field of it). " +
-			"R2: Cancel (the function that calls heap.Remove: the future's method or the one it forwards to) removes by index only on the 'still queued' edge (idx>=0, or idx != m when m is the one negative constant every store outside Swap/Push writes into the index), known directly or through a flag, under the lock. " +
+		Explanation: "R1: after Swap(i,j) the element in slot i has index i and the one in slot j has index j; Push gives the pushed element the length before the append (also when written as the length after it minus one: length arithmetic over the one append); Pop marks the returned element with a negative index (abstract interpretation with symbolic slots; the queue is the heap object itself or a slice field of it; the methods may have pointer or value receivers). " +
+			"R2: Cancel (the function that calls heap.Remove: the future's method or the one it forwards to) removes by index only on the 'still queued' edge (idx>=0, or idx != m when m is the one negative constant every store outside Swap/Push writes into the index), known directly or through a flag, under the lock; the removed index is that field of the tested future, read at the call or handed over together with the flag (idx, ok: every alternative possible under the flag). " +
 			"R3: every heap.Pop in the worker or a helper it calls is dominated by the true edge of now.After(t) / t.Before(now) with t the fire time of element 0 of the heap (every alternative possible under the guards) and now=time.Now() (in a helper: at every call of it), all in one critical section. " +
 			"R4: the callback field is invoked only in the worker, and every origin of the invoked value is nil or the callback of the future just returned by heap.Pop - directly or by a helper all of whose results are nil or such a future (a value carried over an iteration is provably nil). " +
 			"R5: Call stores time.Now().Add(d) into the fire-time field before queueing. " +
@@ -39,7 +40,7 @@ func init() {
 			"R4: the wake-up send is a select with default (never blocks) on a channel created with capacity >= 1 (a token is not lost while the worker is between unlock and select). " +
 			"R5: Less(i,j) is elem[i].fireTime.Before(elem[j].fireTime) (or elem[j].fireTime.After(elem[i].fireTime)). " +
 			"R7: the worker that consumed a wake-up token cannot retire before it has slept (with a recomputed timeout) or popped again - decided with path-sensitive constant propagation of the idle-round counter. " +
-			"R6: the worker re-reads the heap under the lock after every wake-up or timer expiry (no path from the select back to the select without Lock), and sleeps/blocks only with the lock released. R8: a re-used timer is drained when Stop reports it fired. R9: a worker deregisters only when the heap is empty or another worker remains (the guard known directly, or through a flag computed under it on every way the flag can be set). Q1-Q7: the heap index / cancel rules of C12 (a future removed by mistake never fires).",
+			"R6: the worker re-reads the heap under the lock after every wake-up or timer expiry (no path from the select back to the select without Lock), and sleeps/blocks only with the lock released. R8: a re-used timer is drained when Stop reports it fired. In R6-R8 the select/timer code may stand in a function literal of the worker that runs only as a plain call of the worker (never stored, passed, deferred or started with go): its select is decided where it stands, entered with what holds at every call; a call of a literal that cannot return without having slept counts as sleeping; what the literal returns on its woken paths is carried to the code behind the call. R9: a worker deregisters only when the heap is empty or another worker remains (the guard known directly, or through a flag computed under it on every way the flag can be set). Q1-Q7: the heap index / cancel rules of C12 (a future removed by mistake never fires).",
 		NotDecided: "lateness bounds, wind-down time, behaviour under stale wake-up tokens.",
 	})
 }
@@ -63,7 +64,10 @@ func resolveTimerRoles(c *Ctx) *timerRoles {
 	r.all = c.P.FuncsOf("timeout")
 	heapIface := c.P.LookupTypeAny("container/heap", "Interface")
 	if heapIface == nil {
-		c.Fatalf("role container/heap.Interface not found")
+		// not established, for a reason: the rules trust container/heap for the heap order (the earliest future is at
+		// slot 0 after every operation, given Less) and for "Remove(i)/Pop take out exactly slot i/slot 0"; for a
+		// hand-written heap both would have to be proved of its own sift loops, which these rules do not do
+		c.Fatalf("role container/heap.Interface not found (the timer package does not use container/heap: the order and removal discipline of a hand-written heap is not verified by these rules)")
 	}
 	hi := heapIface.Underlying().(*types.Interface)
 	for _, nt := range c.P.NamedTypes("timeout") {
@@ -917,6 +921,9 @@ func timerRules(c *Ctx, pfx string) {
 			return st
 		}
 		fs := ai.Ptr{Path: "H"}
+		// the receiver of a heap method: the address of the heap object, or - for a method with a value receiver - the heap
+		// object itself (its slice of futures is the abstract array either way)
+		recvOf := func(fn *ssa.Function) ai.Val { return r.tmHeapRecvVal(fn, fs) }
 		idxPath := func(p ai.Val) (string, bool) {
 			pp, ok := p.(ai.Ptr)
 			if !ok {
@@ -925,7 +932,7 @@ func timerRules(c *Ctx, pfx string) {
 			return pp.Path + "." + r.fIdx.Name(), true
 		}
 		// Swap
-		outs, err := ai.Explore(env, r.swap, []ai.Val{fs, ai.Tok{Name: "i"}, ai.Tok{Name: "j"}}, base())
+		outs, err := ai.Explore(env, r.swap, []ai.Val{recvOf(r.swap), ai.Tok{Name: "i"}, ai.Tok{Name: "j"}}, base())
 		if err != nil || len(outs) != 1 || outs[0].Panic {
 			c.Undecided(pfx+"1", r.swap, "Swap keeps indices current", nil, fmt.Sprintf("cannot interpret Swap: %v", err))
 		} else {
@@ -950,7 +957,7 @@ func timerRules(c *Ctx, pfx string) {
 			}
 		}
 		// Push
-		outs, err = ai.Explore(env, r.push, []ai.Val{fs, ai.Ptr{Path: "newfut"}}, base())
+		outs, err = ai.Explore(env, r.push, []ai.Val{recvOf(r.push), ai.Ptr{Path: "newfut"}}, base())
 		if err != nil || len(outs) != 1 || outs[0].Panic {
 			c.Undecided(pfx+"1", r.push, "Push sets the index", nil, fmt.Sprintf("cannot interpret Push: %v", err))
 		} else {
@@ -967,7 +974,7 @@ func timerRules(c *Ctx, pfx string) {
 			c.Decide(pfx+"1", r.push, "Push: index = length before append", nil, ok, "Push stores "+g+" as index of the pushed future instead of the length before the append")
 		}
 		// Pop
-		outs, err = ai.Explore(env, r.pop, []ai.Val{fs}, base())
+		outs, err = ai.Explore(env, r.pop, []ai.Val{recvOf(r.pop)}, base())
 		if err != nil || len(outs) == 0 {
 			c.Undecided(pfx+"1", r.pop, "Pop resets the index", nil, fmt.Sprintf("cannot interpret Pop: %v", err))
 		} else {
@@ -1003,7 +1010,9 @@ func timerRules(c *Ctx, pfx string) {
 			}
 			n++
 			idxArg := call.Call.Args[1]
-			base, isIdx := loadOfField(idxArg, r.fIdx)
+			// the removed index is the index field of one future - read directly, or handed over together with a "queued"
+			// flag (idx, ok := ...): then every alternative that is possible under the flags known at the Remove
+			base, isIdx := r.tmIndexOfOneFuture(idxArg, call.Block())
 			guarded := isIdx && tmGuardHolds(call.Block(), func(cm ir.Cmp) bool {
 				x, y, op := cm.X, cm.Y, cm.Op
 				if _, isC := ir.ConstInt(x); isC {
@@ -1618,10 +1627,24 @@ func timerLiveRules(c *Ctx, pfx string) {
 	}
 
 	// R6 re-read under lock after every wake-up; block only unlocked
+	// The select may be written in the worker itself or in a function literal of the worker that runs only as a plain
+	// call of the worker (sleep := func(d) bool { ... select ... }): a piece of the worker's body written aside. A call of
+	// such a literal is a place where the worker may sleep; the select inside is decided where it stands, entered with
+	// what holds at every call of the literal.
+	sleepClosures, maySleep, mustSleep := tmSleepClosures(r.worker)
+	isSleepPoint := func(x ssa.Instruction) bool { return tmIsBlockingSelect(x) || maySleep[x] != nil }
 	{
 		fn := r.worker
 		ls := r.lockset(fn)
 		n := 0
+		listensOnWake := func(sel *ssa.Select, lc *tmLocalClosure) bool {
+			for _, st := range sel.States {
+				if st.Dir == types.RecvOnly && r.tmIsWakeChan(st.Chan, lc) {
+					return true
+				}
+			}
+			return false
+		}
 		ir.Instrs(fn, func(in ssa.Instruction) {
 			sel, ok := in.(*ssa.Select)
 			if !ok || !sel.Blocking {
@@ -1630,21 +1653,46 @@ func timerLiveRules(c *Ctx, pfx string) {
 			n++
 			c.Decide(pfx+"6", fn, "worker sleeps with the lock released", in, len(ls.Any(in)) == 0 && len(r.entryLocks(fn, true, nil)) == 0, "the worker blocks in select while holding the lock")
 			// the select listens on the wake channel
-			listens := false
-			for _, st := range sel.States {
-				if st.Dir == types.RecvOnly {
-					if _, isWake := loadOfField(st.Chan, r.wake); isWake {
-						listens = true
-					}
-				}
-			}
-			c.Decide(pfx+"6", fn, "sleeping worker listens on the wake channel", in, listens, "the sleeping worker does not listen on the wake channel: a nearer deadline queued meanwhile is slept through")
+			c.Decide(pfx+"6", fn, "sleeping worker listens on the wake channel", in, listensOnWake(sel, nil), "the sleeping worker does not listen on the wake channel: a nearer deadline queued meanwhile is slept through")
 			c.NoPath(pfx+"6", "heap re-read under the lock after waking", in, ir.Query{Fn: fn, From: in, Block: r.isLock,
-				Target: func(x ssa.Instruction) bool {
-					s2, ok := x.(*ssa.Select)
-					return ok && s2.Blocking
-				}}, "the worker goes back to sleep without re-reading the heap under the lock")
+				Target: isSleepPoint}, "the worker goes back to sleep without re-reading the heap under the lock")
 		})
+		for _, lc := range sleepClosures {
+			lc := lc
+			g := lc.Fn
+			lsg := ir.ComputeLockset(g, nil)
+			ir.Instrs(g, func(in ssa.Instruction) {
+				sel, ok := in.(*ssa.Select)
+				if !ok || !sel.Blocking {
+					return
+				}
+				n++
+				// nothing held where the literal is called, nothing acquired inside it before the select
+				released := len(lsg.Any(in)) == 0 && len(r.entryLocks(fn, true, nil)) == 0
+				for _, call := range lc.Calls {
+					released = released && len(ls.Any(call)) == 0
+				}
+				c.Decide(pfx+"6", fn, "worker sleeps with the lock released", in, released, "the worker blocks in select while holding the lock")
+				c.Decide(pfx+"6", fn, "sleeping worker listens on the wake channel", in, listensOnWake(sel, &lc), "the sleeping worker does not listen on the wake channel: a nearer deadline queued meanwhile is slept through")
+				// from this select to the next sleep without Lock: inside the literal, or after it returned to the worker
+				what := "the worker goes back to sleep without re-reading the heap under the lock"
+				w, err := (ir.Query{Fn: g, From: in, Block: r.isLock, Target: tmIsBlockingSelect}).Find()
+				for _, call := range lc.Calls {
+					if w != nil || err != nil {
+						break
+					}
+					w, err = (ir.Query{Fn: fn, From: call, Block: r.isLock, Target: isSleepPoint}).Find()
+				}
+				switch {
+				case err != nil:
+					c.Undecided(pfx+"6", fn, "heap re-read under the lock after waking", in, err.Error())
+				case w != nil:
+					c.Decide(pfx+"6", fn, "heap re-read under the lock after waking", in, false, what+": path "+w.String(c.P))
+				default:
+					c.Decide(pfx+"6", fn, "heap re-read under the lock after waking", in, true, "")
+				}
+			})
+		}
 		if n == 0 {
 			c.Decide(pfx+"6", fn, "worker sleeps in a select", nil, false, "the worker has no blocking select")
 		}
@@ -1653,86 +1701,146 @@ func timerLiveRules(c *Ctx, pfx string) {
 	{
 		fn := r.worker
 		n := 0
+		wakeCase := func(sel *ssa.Select, lc *tmLocalClosure) int {
+			wakeIdx := -1
+			for i, st := range sel.States {
+				if st.Dir == types.RecvOnly && r.tmIsWakeChan(st.Chan, lc) {
+					wakeIdx = i
+				}
+			}
+			return wakeIdx
+		}
+		// sleeping again: a blocking select, or a call of a local literal no path of which avoids its blocking select
+		rearms := func(x ssa.Instruction) bool {
+			return tmIsBlockingSelect(x) || mustSleep[x] != nil || heapCall(x, "Pop") != nil
+		}
+		what := "the worker that took the wake-up token can retire in the same round without recomputing its sleep: the token is consumed, the other workers keep sleeping towards an older deadline, and the newly queued future starts up to an idle period late"
 		ir.Instrs(fn, func(in ssa.Instruction) {
 			sel, ok := in.(*ssa.Select)
 			if !ok || !sel.Blocking {
 				return
 			}
-			wakeIdx := -1
-			for i, st := range sel.States {
-				if st.Dir == types.RecvOnly {
-					if _, isWake := loadOfField(st.Chan, r.wake); isWake {
-						wakeIdx = i
-					}
-				}
-			}
+			wakeIdx := wakeCase(sel, nil)
 			if wakeIdx < 0 {
 				return
 			}
 			// the block entered when the select index equals wakeIdx
-			for _, b := range fn.Blocks {
-				if len(b.Preds) != 1 {
-					continue
-				}
-				f := ir.EdgeFact(b.Preds[0], b)
-				if f == nil {
-					continue
-				}
-				cm, isCmp := f.Cmp()
-				if !isCmp || cm.Op != token.EQL {
-					continue
-				}
-				ex, isEx := ir.Resolve(cm.X).(*ssa.Extract)
-				k, isC := ir.ConstInt(cm.Y)
-				if !isEx || !isC || ex.Tuple != ssa.Value(sel) || ex.Index != 0 || int(k) != wakeIdx {
-					continue
-				}
+			for _, b := range tmWokenBlocks(fn, sel, wakeIdx) {
 				n++
 				c.tmNoFeasiblePath(pfx+"7", "woken worker re-arms before it may retire", b.Instrs[0], ir.Query{Fn: fn, FromBlock: b, TrackConsts: true,
-					Block: func(x ssa.Instruction) bool {
-						if s2, ok := x.(*ssa.Select); ok && s2.Blocking {
-							return true
-						}
-						return heapCall(x, "Pop") != nil
-					}, Target: ir.IsExit},
-					"the worker that took the wake-up token can retire in the same round without recomputing its sleep: the token is consumed, the other workers keep sleeping towards an older deadline, and the newly queued future starts up to an idle period late")
+					Block: rearms, Target: ir.IsExit}, what)
 			}
 		})
+		// the select in a local literal of the worker: the woken paths run to the returns of the literal - with what they
+		// return, as far as it is a constant on the path - and go on in the worker behind every call of the literal
+		for _, lc := range sleepClosures {
+			lc := lc
+			g := lc.Fn
+			ir.Instrs(g, func(in ssa.Instruction) {
+				sel, ok := in.(*ssa.Select)
+				if !ok || !sel.Blocking {
+					return
+				}
+				wakeIdx := wakeCase(sel, &lc)
+				if wakeIdx < 0 {
+					return
+				}
+				for _, b := range tmWokenBlocks(g, sel, wakeIdx) {
+					n++
+					// what the literal hands back on the woken paths that neither sleep nor pop again inside it
+					type outcome struct{ known, val bool }
+					var outs []outcome
+					oneBool := g.Signature.Results().Len() == 1 && types.Identical(g.Signature.Results().At(0).Type().Underlying(), types.Typ[types.Bool])
+					_, ferr := (tmFeasSearch{Fn: g, FromBlock: b, Stop: rearms, Target: ir.IsExit, MaxStates: 20000,
+						Collect: func(at ssa.Instruction, eval func(ssa.Value) (constant.Value, bool)) {
+							o := outcome{}
+							if ret, isRet := at.(*ssa.Return); isRet && oneBool && len(ret.Results) == 1 {
+								if k, isK := eval(ir.ResultValue(ret, 0)); isK && k.Kind() == constant.Bool {
+									o = outcome{true, constant.BoolVal(k)}
+								}
+							}
+							for _, have := range outs {
+								if have == o {
+									return
+								}
+							}
+							outs = append(outs, o)
+						}}).find()
+					if ferr != nil {
+						c.Undecided(pfx+"7", fn, "woken worker re-arms before it may retire", b.Instrs[0], ferr.Error())
+						continue
+					}
+					var wit *ir.Witness
+					var err error
+					proved := true
+					for _, call := range lc.Calls {
+						for _, o := range outs {
+							if !proved {
+								break
+							}
+							proved, wit, err = tmNoFeasiblePathAfterCall(fn, call, o.known, o.val, rearms, ir.IsExit)
+						}
+					}
+					switch {
+					case proved:
+						c.Decide(pfx+"7", fn, "woken worker re-arms before it may retire", b.Instrs[0], true, "")
+					case err != nil:
+						c.Undecided(pfx+"7", fn, "woken worker re-arms before it may retire", b.Instrs[0], err.Error())
+					default:
+						d := what
+						if wit != nil {
+							d += ": path " + wit.String(c.P)
+						}
+						c.Decide(pfx+"7", fn, "woken worker re-arms before it may retire", b.Instrs[0], false, d)
+					}
+				}
+			})
+		}
 		if n == 0 {
 			c.Decide(pfx+"7", fn, "woken worker re-arms before it may retire", nil, false, "cannot find the wake-up case of the worker's select")
 		}
 	}
-	// R8 a re-used timer is drained when Stop reports that it already fired
+	// R8 a re-used timer is drained when Stop reports that it already fired (in the worker or in a local literal of it:
+	// a timer kept across rounds lives in a variable both can see)
 	{
 		fn := r.worker
+		bodies := []*ssa.Function{fn}
+		for _, lc := range tmLocalClosures(fn) {
+			bodies = append(bodies, lc.Fn)
+		}
 		reuses := false
-		ir.Instrs(fn, func(in ssa.Instruction) {
-			if call, ok := in.(*ssa.Call); ok && ir.CalleeFullName(call) == "(*time.Timer).Reset" {
-				reuses = true
-			}
-		})
-		ir.Instrs(fn, func(in ssa.Instruction) {
-			call, ok := in.(*ssa.Call)
-			if !ok || ir.CalleeFullName(call) != "(*time.Timer).Stop" {
-				return
-			}
-			if !reuses {
-				c.Decide(pfx+"8", fn, "stopped timer is not re-used (or drained)", in, true, "")
-				return
-			}
-			// the false edge of Stop() receives from the timer's channel
-			drained := false
-			ir.Instrs(fn, func(x ssa.Instruction) {
-				u, isRecv := x.(*ssa.UnOp)
-				if !isRecv || u.Op != token.ARROW {
-					return
-				}
-				if ir.HasFact(x.Block(), func(f ir.Fact) bool { ff := f.StripNot(); return ff.Cond == ssa.Value(call) && !ff.True }) {
-					drained = true
+		for _, body := range bodies {
+			ir.Instrs(body, func(in ssa.Instruction) {
+				if call, ok := in.(*ssa.Call); ok && ir.CalleeFullName(call) == "(*time.Timer).Reset" {
+					reuses = true
 				}
 			})
-			c.Decide(pfx+"8", fn, "stopped timer is not re-used (or drained)", in, drained, "the worker re-uses its timer (Reset) but does not drain the channel when Stop reports that the timer already fired: the stale tick makes the next sleep return at once as a fake idle round and the worker that should re-arm retires")
-		})
+		}
+		for _, body := range bodies {
+			body := body
+			ir.Instrs(body, func(in ssa.Instruction) {
+				call, ok := in.(*ssa.Call)
+				if !ok || ir.CalleeFullName(call) != "(*time.Timer).Stop" {
+					return
+				}
+				if !reuses {
+					c.Decide(pfx+"8", fn, "stopped timer is not re-used (or drained)", in, true, "")
+					return
+				}
+				// the false edge of Stop() receives from the timer's channel
+				drained := false
+				ir.Instrs(body, func(x ssa.Instruction) {
+					u, isRecv := x.(*ssa.UnOp)
+					if !isRecv || u.Op != token.ARROW {
+						return
+					}
+					if ir.HasFact(x.Block(), func(f ir.Fact) bool { ff := f.StripNot(); return ff.Cond == ssa.Value(call) && !ff.True }) {
+						drained = true
+					}
+				})
+				c.Decide(pfx+"8", fn, "stopped timer is not re-used (or drained)", in, drained, "the worker re-uses its timer (Reset) but does not drain the channel when Stop reports that the timer already fired: the stale tick makes the next sleep return at once as a fake idle round and the worker that should re-arm retires")
+			})
+		}
 	}
 	// R9 a worker retires while futures are pending only if another worker remains
 	{
